@@ -110,7 +110,7 @@ def rand_dict(rng, p_valid=0.8):
     for f in rng.sample(OPTIONAL, rng.choice([0, 1, 2, 3, 5, 8, 12, 20, len(OPTIONAL)])):
         d[f] = pick_value(rng, f, p_valid)
     if rng.random() < 0.15:
-        for k in rng.sample(UNKNOWN, rng.choice([1, 1, 2])): d[k] = rng.choice(["x", ["x"], ""])
+        for k in rng.sample(UNKNOWN, rng.choice([1, 1, 2])): d[k] = rng.choice(["x", ["x"], "", {"a": "b"}, {}, []])
     items = list(d.items()); rng.shuffle(items)
     return dict(items)
 
